@@ -834,8 +834,14 @@ package erpc
 
 // bindReply takes the lock of the call the reply belongs to; handleReply gives it back
 //@ ghost global pendingReplyLock bool
+// (an Args taken from the pool is not in use anywhere else: nobody uses an object
+// after returning it to its pool - assumption)
+//@ trusted utils.AcquireArgs in erpc.(*handlerCtx).bindReply
+//@   modifies nothing
+//@   ensures[exclusively-owned] result != nil && len(result.args) == 0 && result != as(c.input, type(*socket.message)).meta && result != as(c.output, type(*socket.message)).meta
 //@ func (*handlerCtx).bindReply
-//@   property C02
+//@   property C02 C14 C01
+//@   ensures[reply-metadata-is-the-calls-own-copy] @C14 @C01 c.callCmd != nil ==> c.callCmd.inputMeta != as(c.input, type(*socket.message)).meta && c.callCmd.inputMeta != as(c.output, type(*socket.message)).meta
 //@   flags libframe
 //@   requires ctxShape(c) && c.sess != nil && c.callCmd == nil && c.pluginContainer != nil && sentinelsIntact()
 //@   modifies c.callCmd, c.swap, c.context, userCtx(c), allof(type(callCmd)), lockset, ghost.trace, ghost.vetoed, allof(type(utils.Args)), allelems(type(utils.argsKV)), allelems(type(byte))
@@ -1051,3 +1057,6 @@ package erpc
 // command's fields are ordered by its done channel and are not claimed here)
 //@ guarded (*session).sessionAge by sessionAgeLock @C14
 //@ guarded (*session).contextAge by contextAgeLock @C14
+//@ guarded (*session).status by atomic @C14
+//@ guarded (*session).seq by atomic @C14
+//@ guarded (*session).didCloseNotify by atomic @C14
